@@ -3,7 +3,7 @@ import itertools
 import collections
 from .. import model, sweep, lcfrs
 from ..runner import Result
-from ..bridge import T, build, quiet, build_via_export, extract, monitor
+from ..bridge import T, build, quiet, build_via_export, extract, monitor, build_any
 from ..runner import scratch
 
 from trees import grammar, grammaranalysis, transform
@@ -94,6 +94,10 @@ def check_bank(mtjs, order=None):
             mts = [extract(t) for t in live]
             for t in live:
                 grammar.extract(t, g, lex)
+        elif order == 'written':
+            # tree objects that were written once (constituents carry export numbers) and are extracted afterwards
+            for mt in mts:
+                ret = grammar.extract(build_any(mt, 'written'), g, lex)
         elif order == 'collapse':
             # trees restructured in place by another transformation before extraction
             live = [transform.collapse_unary_chains(build(mt)) for mt in mts]
@@ -169,7 +173,7 @@ def run_chunk(chunk):
         if chunk['kind'] == 'single':
             for sh, k in sweep.iter_shapes(chunk):
                 for mt in label_variants(sh, chunk['dev']):
-                    for order in (None, 'rev', 'export+raise') + (('collapse',) if k else ()):
+                    for order in (None, 'rev', 'export+raise', 'written') + (('collapse',) if k else ()):
                         vs, nt = check_bank([mt.to_json()], order)
                         take(vs, nt, (mt.key(), order))
                 res.sample({'treebank': [model.mt_str(mt.root, mt.toks)]})
